@@ -108,6 +108,24 @@ func c17MatrixOf(P float64) (invBits uint64, rows [2][]uint64) {
 	return
 }
 
+// constructor decision table (accept / reject) of NewTernarySampler
+func c17CtorTies(c *Ctx) {
+	r := c17Ring(16, []uint64{257})
+	ps := []float64{0, math.Copysign(0, -1), 0.5, 1, 1.0000000000000002, 1.5, -0.5, -1e-300, 1e-300, 2.0 / 3.0, math.Inf(1), math.Inf(-1)}
+	hs := []int{0, 1, 5, 16, 17, 1000, -1, -9, math.MinInt64, math.MaxInt64}
+	for _, P := range ps {
+		for _, H := range hs {
+			_, err := ring.NewTernarySampler(&c17Replay{}, r, ring.Ternary{P: P, H: H}, false)
+			out := "ok"
+			if err != nil {
+				out = "err"
+			}
+			c.Emit("ctor "+c17F64(P)+" "+fmt.Sprint(H), out)
+			c.Count("ctor:" + out)
+		}
+	}
+}
+
 func c17MatrixTies(c *Ctx) {
 	ps := append([]float64{}, c17Ps...)
 	ps = append(ps, math.Ldexp(1, -56), math.Ldexp(1, -53), 1-math.Ldexp(1, -53), 1.0)
@@ -379,9 +397,6 @@ func c17TernarySessions(c *Ctx) {
 		calls := make([]c17Call, nc)
 		for k := range calls {
 			calls[k] = c17Call{s: 0, level: c.rng.Intn(len(chain)), op: "rna"[c.rng.Intn(3)], reg: c.rng.Intn(2)}
-			if calls[k].op == 'n' && c.rng.Intn(4) != 0 {
-				calls[k].level = len(chain) - 1 // ReadNew on a ternary view below the top level panics (as coded)
-			}
 		}
 		c17Sess(c, N, chain, []c17Kind{kd}, st, c17Regs(c, 2, N, chain, i%3), calls)
 	}
